@@ -52,11 +52,26 @@ pub fn run(stim: &Value, rec: &Rec) {
         "rt" => {
             let (meta, rejected) = build_meta(&stim["meta"]);
             let msg = String::from_utf8(json_bytes(&stim["msg"])).expect("stimulus message must be UTF-8");
-            let st = Status::with_details_and_metadata(Code::from_i32(stim["code"].as_i64().unwrap() as i32), msg, json_bytes(&stim["details"]).into(), meta);
+            // the constructor that fits the stimulus is used in every other run (with_metadata / with_details / new)
+            let code = Code::from_i32(stim["code"].as_i64().unwrap() as i32);
+            let det = json_bytes(&stim["details"]);
+            let alt = stim["alt_ctor"].as_bool().unwrap_or(stim["code"].as_i64().unwrap_or(0) % 2 == 1);
+            let st = if alt && det.is_empty() && meta.is_empty() { Status::new(code, msg) }
+                     else if alt && det.is_empty() { Status::with_metadata(code, msg, meta) }
+                     else if alt && meta.is_empty() { Status::with_details(code, msg, det.into()) }
+                     else { Status::with_details_and_metadata(code, msg, det.into(), meta) };
             rec.ev(json!({"e":"built","rejected":rejected}));
             let mut h = http::HeaderMap::new();
+            // the other way the same status is written out: the trailers-only response of into_http()
+            let resp = { let (meta2, _) = build_meta(&stim["meta"]);
+                         Status::with_details_and_metadata(code, st.message().to_string(), st.details().to_vec().into(), meta2).into_http::<http_body_util::Empty<bytes::Bytes>>() };
             match st.add_header(&mut h) {
                 Ok(()) => {
+                    let mut rh = resp.headers().clone();
+                    let ctype: Vec<Value> = rh.get_all("content-type").iter().map(|v| bytes_json(v.as_bytes())).collect();
+                    rh.remove("content-type");
+                    rec.ev(json!({"e":"written","into_http_same": rh == h, "http_status": resp.status().as_u16(),
+                                  "ctype": ctype, "eos": http_body::Body::is_end_stream(resp.body())}));
                     rec.ev(json!({"e":"hdrs","ok":true,"list":headers_json(&h)}));
                     match Status::from_header_map(&h) {
                         Some(p) => rec.ev(json!({"e":"parsed","st":status_full_json(&p)})),
